@@ -470,6 +470,11 @@ PLANS = {
 }
 
 THEOREMS: dict[str, list[str]] = {p: [] for p in PLANS}
+THEOREMS["C01"] = [
+    "Pest.C01.gen_equiv_interp", "Pest.C01.trivia_gen_eq", "Pest.C01.generated_parse_eq", "Pest.C01.gen_no_exc",
+    "Pest.run_gen", "Pest.step_gen", "Pest.rule_gen", "Pest.popAllLoop_full", "Pest.srel_restore", "Pest.srel_ok",
+    "Pest.run_good",
+]
 THEOREMS["C03"] = [
     "Pest.C03.interp_refines_spec", "Pest.C03.parse_agrees_with_spec", "Pest.C03.interp_exc_only_undefined",
     "Pest.C03.choice_commits", "Pest.C03.choice_next", "Pest.C03.opt_spec", "Pest.C03.and_spec", "Pest.C03.not_spec",
@@ -490,6 +495,7 @@ THEOREMS["C05"] = [
     "Pest.C05.stack_ops_never_raise", "Pest.C05.failed_op_is_identity", "Pest.C03.interp_refines_spec",
     "Pest.DStack.abs_apply", "Pest.DStack.inv_apply", "Pest.popAllLoop_rel",
 ]
+THEOREMS["C05_gen"] = ["Pest.C01.gen_equiv_interp", "Pest.C01.gen_no_exc"]
 
 
 def choose_passes(rng: random.Random, i: int) -> list[str]:
